@@ -198,17 +198,24 @@ class LemmaChain:
                 self.amap[n] = self.t.fresh('g_' + d.args[n][0], d.vals[n])
         return d.substitute(list(formulas), {n: self.amap[n] for n in ufs})
 
-    def select(self, node, extra=()):
-        """facts sharing a transcendental atom with the statement (transitively, two rounds)."""
+    def select(self, node, closed=False):
+        """lemma selection.  closed: facts that only mention transcendental atoms of the statement;
+        otherwise facts sharing a transcendental atom with it, transitively (two rounds)."""
         d = self.d
-        want = {n for n in self.atoms([node] + list(extra))}
+        want = {a for a in self.atoms([node]) if d.ops[a] == 'uf'}
         sel = []
+        if closed:
+            for f in self.facts:
+                fa = {a for a in self.atoms([f]) if d.ops[a] == 'uf'}
+                if fa <= want:
+                    sel.append(f)
+            return sel
         for _ in range(2):
             for f in self.facts:
                 if f in sel:
                     continue
-                fa = self.atoms([f])
-                if any(d.ops[a] == 'uf' for a in fa & want):
+                fa = {a for a in self.atoms([f]) if d.ops[a] == 'uf'}
+                if fa & want or not fa:
                     sel.append(f)
                     want |= fa
         return sel
@@ -220,14 +227,26 @@ class LemmaChain:
         if node == d.FALSE:
             self.failed.append((what, 'constant false'))
             return False
-        hyps = self.select(node) if hyps is None else list(hyps)
-        forms = self.generalise([node] + self.base + hyps)
-        st, r, text = prove(d, forms[1:], forms[0], timeout=timeout or self.timeout, tr=self.tr, label=what, parallel=True)
-        if self.verbose:
-            print(f'   [{st:8s} {r.secs if r else 0:6.2f}s {r.solver if r else ""}] {what}', flush=True)
-        if st == 'proved':
-            self.nproved += 1
-            return True
+        timeout = timeout or self.timeout
+        if hyps is None:
+            attempts = [(self.select(node, closed=True), min(timeout, 8.0))]
+            wide = self.select(node)
+            if set(wide) != set(attempts[0][0]):
+                attempts.append((wide, timeout))
+        else:
+            attempts = [(list(hyps), timeout)]
+        st = 'unknown'
+        for k, (hs, to) in enumerate(attempts):
+            forms = self.generalise([node] + self.base + hs)
+            # most lemmas fall to z3 in milliseconds: one process first, the whole portfolio only when needed
+            st, r, text = prove(d, forms[1:], forms[0], timeout=1.5, solvers=('z3',), tr=self.tr, label=what)
+            if st == 'unknown':
+                st, r, text = prove(d, forms[1:], forms[0], timeout=to, tr=self.tr, label=what, parallel=True)
+            if self.verbose:
+                print(f'   [{st:8s} {r.secs if r else 0:6.2f}s {r.solver if r else "":5s} {len(hs):3d} facts] {what}', flush=True)
+            if st == 'proved':
+                self.nproved += 1
+                return True
         self.failed.append((what, st))
         return False
 
@@ -269,6 +288,7 @@ class LemmaChain:
     def exp_phase(self, roots):
         d = self.d
         reps = []
+        seen = []
         nodes = self.uf_nodes(roots, 'exp')
         # canonical representatives: positive witness argument first, small DAG first
         nodes.sort(key=lambda n: (d.vals[d.args[n][1]] < 0, n))
@@ -291,8 +311,8 @@ class LemmaChain:
                     break
             if not done:
                 # additive relations with two representatives: exp(x + y) = exp(x) exp(y)
-                for i1, e1 in enumerate(reps):
-                    for e2 in reps[i1 + 1:]:
+                for i1, e1 in enumerate(seen):
+                    for e2 in seen[i1 + 1:]:
                         a1, a2 = d.args[e1][1], d.args[e2][1]
                         va, v1, v2 = d.vals[a], d.vals[a1], d.vals[a2]
                         if self.close(va, v1 + v2) and self.prove(f'exp arguments add #{e}=#{e1}+#{e2}', d.eq(a, d.add(a1, a2))):
@@ -313,6 +333,7 @@ class LemmaChain:
                         break
             if not done:
                 reps.append(e)
+            seen.append(e)
             self.fact(d.lt(0, e))  # exp > 0
             if d.vals[a] > 0 and self.prove(f'exp argument positive #{e}', d.lt(0, a)):
                 self.fact(d.lt(1, e))  # x > 0 => exp x > 1
@@ -333,6 +354,12 @@ class LemmaChain:
         if stmt in self.facts or stmt == d.TRUE:
             return True
         sfx = '> 0' if v > 0 else ('< 0' if v < 0 else '= 0')
+        for f in self.facts:  # equal to something whose sign is known
+            if d.ops[f] == 'eq' and b in d.args[f]:
+                other = d.args[f][0] if d.args[f][1] == b else d.args[f][1]
+                known = d.lt(0, other) if v > 0 else d.lt(other, 0)
+                if known in self.facts and self.lemma(f'{what} #{b} {sfx} (equals #{other})', stmt, hyps=[f, known]):
+                    return True
         if self.lemma(f'{what} #{b} {sfx}', stmt):
             return True
         if depth <= 0 or d.ops[b] not in ('add', 'mul', 'div', 'ipow') or self.failed[-1][1] != 'refuted':
@@ -401,7 +428,7 @@ class LemmaChain:
         for L1 in list(unpaired):
             g1 = d.args[L1][1]
             found = False
-            for Lb in unpaired:
+            for Lb in only_i:
                 if Lb == L1:
                     continue
                 gb = d.args[Lb][1]
@@ -414,6 +441,20 @@ class LemmaChain:
                             found = True
             if found:
                 unpaired.remove(L1)
+        # four-way relations (two events of an older epoch when no lineage count multiplies the boundary term):
+        # g1 o1 = g2 o2  =>  log g1 + log o1 = log g2 + log o2
+        for k in range(1, len(unpaired)):
+            L1, L2 = unpaired[0], unpaired[k]
+            g1, g2 = d.args[L1][1], d.args[L2][1]
+            for o1 in only_o:
+                for o2 in only_o:
+                    if o1 == o2:
+                        continue
+                    q1, q2 = d.args[o1][1], d.args[o2][1]
+                    if self.close(d.vals[g1] * d.vals[q1], d.vals[g2] * d.vals[q2]) and d.vals[g1] > 0 and d.vals[g2] > 0:
+                        if self.prove(f'log arguments: #{L1} * #{o1} = #{L2} * #{o2}', d.eq(d.mul(g1, q1), d.mul(g2, q2))) \
+                                and self.positive(g1) and self.positive(g2) and self.positive(q1) and self.positive(q2):
+                            self.fact(d.eq(d.add(L1, o1), d.add(L2, o2)))
         return unpaired
 
     def equal(self, I, O, signature, what):
@@ -461,7 +502,7 @@ SIG_NAN = 'PiecewiseConstantBirthDeath.log_prob:nan:minus-inf-times-zero-for-a-m
 
 def cfg_label(c):
     return (f"{c['cls']} m={c['m']} n={c['n']} survival={c['survival']} removal={c['removal']} origin={c['origin']} "
-            f"times={c['times']} rho={c['rho_shape']} split={c.get('split')}")
+            f"times={c['times']} rho={c['rho_shape']} split={c.get('split')}" + (f" cell={c['cell']}" if c.get('cell') else ''))
 
 
 def var_names(c):
@@ -487,6 +528,8 @@ def initial_witness(c):
         W[f'c{j}'] = 1.5 + 0.7 * j
     W['tb'] = 0.35 if c['times'] == 'rel' else 1.3
     sp = c.get('split') or {}
+    if c.get('cell'):
+        W.update(cell_witness(c))
     if sp.get('rho0') is True:
         W['rho'] = 0.0
     if sp.get('tip0') is True:
@@ -497,6 +540,65 @@ def initial_witness(c):
     if sp.get('corner'):
         W['rho'], W['r'] = 1.0, 0.0
     return {k: W[k] for k in var_names(c)}
+
+
+def parse_cell(cell):
+    """'0=s0<s1<B<c0' -> (items, relations); B is the height of the epoch boundary."""
+    import re
+
+    toks = re.split(r'(<=|<|=)', cell.replace(' ', ''))
+    return toks[0::2], toks[1::2]
+
+
+def cell_witness(c):
+    """generic heights realising the cell (distinct unless the cell says '=')"""
+    items, rels = parse_cell(c['cell'])
+    steps = [0.3125, 0.46875, 0.59375, 0.734375, 0.375, 0.53125, 0.671875, 0.4375]  # dyadic: sums are exact in float64
+    vals = {}
+    v = 0.0 if items[0] == '0' else 0.234375
+    vals[items[0]] = v
+    for k, (it, rel) in enumerate(zip(items[1:], rels)):
+        if rel != '=':
+            v = v + steps[k % len(steps)]
+        vals[it] = v
+    n = c['n']
+    W = {k: x for k, x in vals.items() if k not in ('0', 'B')}
+    root = W[f'c{n-2}']
+    if c['origin'] == 'given':
+        origin = max(vals.values()) + 0.828125
+        W['origin'] = origin
+    elif c['origin'] == 'root_edge':
+        W['edge'] = max(vals.values()) + 0.828125 - root
+        origin = root + W['edge']
+    else:
+        origin = root
+    if 'B' in vals:
+        W['tb'] = (origin - vals['B']) / origin if c['times'] == 'rel' else origin - vals['B']
+    return W
+
+
+def boundary_height(d, V, c):
+    o = origin_node(d, V, c)
+    if c['times'] == 'rel':
+        return d.sub(o, d.mul(V['tb'], o))
+    return d.sub(o, V['tb'])
+
+
+def cell_constraints(c, d, V):
+    items, rels = parse_cell(c['cell'])
+
+    def node(it):
+        if it == '0':
+            return 0
+        if it == 'B':
+            return boundary_height(d, V, c)
+        return V[it]
+
+    cs = []
+    for a, b, rel in zip(items, items[1:], rels):
+        na, nb = node(a), node(b)
+        cs.append(d.lt(na, nb) if rel == '<' else (d.le(na, nb) if rel == '<=' else d.eq(na, nb)))
+    return cs
 
 
 def origin_node(d, V, c):
@@ -539,6 +641,8 @@ def domain_for(c):
             else:
                 cs += [d.lt(0, V['tb']), d.lt(V['tb'], origin_node(d, V, c))]
         sp = c.get('split') or {}
+        if c.get('cell'):
+            cs += cell_constraints(c, d, V)
         if sp.get('rho0') is True:
             cs.append(d.eq(rho, 0))
         elif sp.get('rho0') is False:
@@ -725,3 +829,334 @@ def run_density_task(c, tr, verbose=False):
         tr.sample(s)
     triage(out, lambda vals: replay(c, vals), tr, label, {'cfg': c})
     return out
+
+
+# ================================================================ JSON plumbing
+SIG_RP = 'BDSKModel.from_json:removal_probability-read-from-relative_times'
+SIG_TLIST = 'BDSKModel.from_json:times-given-as-list:not-converted-to-tensor'
+SIG_NOORIGIN = 'BDSKModel._call:origin-omitted:raises-AttributeError'
+SIG_BDM = 'BirthDeathModel._call:raises-AttributeError'
+SIG_PLUMB = 'from_json:option-does-not-select-the-behaviour-it-names'
+
+PARAM_VALUES = {'R': [1.5], 'delta': [1.2], 's': [0.3], 'rho': [0.2], 'origin': [5.0], 'times': [0.0],
+                'removal_probability': [0.7], 'lambda': [1.8], 'mu': [0.9], 'psi': [0.4]}
+
+PLUMB_VARIANTS = {
+    # name: (model, optional Parameter keys, plain options)
+    'bdsk origin': ('BDSKModel', ['origin'], {}),
+    'bdsk origin rho': ('BDSKModel', ['origin', 'rho'], {}),
+    'bdsk origin survival=False': ('BDSKModel', ['origin'], {'survival': False}),
+    'bdsk origin survival=True': ('BDSKModel', ['origin', 'rho'], {'survival': True}),
+    'bdsk origin_is_root_edge=True': ('BDSKModel', ['origin'], {'origin_is_root_edge': True}),
+    'bdsk origin_is_root_edge=False': ('BDSKModel', ['origin'], {'origin_is_root_edge': False}),
+    'bdsk times parameter': ('BDSKModel', ['origin', 'times'], {}),
+    'bdsk removal_probability': ('BDSKModel', ['origin', 'removal_probability'], {}),
+    'bdsk relative_times=True': ('BDSKModel', ['origin', 'times'], {'relative_times': True}),
+    'bdsk relative_times=False': ('BDSKModel', ['origin', 'times'], {'relative_times': False}),
+    'bdsk times list': ('BDSKModel', ['origin'], {'times': [0.0]}),
+    'bdsk no origin': ('BDSKModel', ['rho'], {}),
+    'bd': ('BirthDeathModel', [], {}),
+    'bd survival=False': ('BirthDeathModel', [], {'survival': False}),
+}
+
+
+def plumb_json(variant):
+    model, keys, opts = PLUMB_VARIANTS[variant]
+
+    def P(k):
+        return {'id': 'p_' + k, 'type': 'Parameter', 'tensor': list(PARAM_VALUES[k])}
+
+    tree = dict(cm.time_tree_json(((0, 1), 2), 3), taxa=cm.taxa_json(3, [0.5, 0.0, 0.2]))
+    js = {'id': 'model', 'type': model, 'tree_model': tree}
+    req = ['R', 'delta', 's'] if model == 'BDSKModel' else ['lambda', 'mu', 'psi', 'rho', 'origin']
+    for k in req + list(keys):
+        js[k] = P(k)
+    js.update(opts)
+    return js, req + list(keys)
+
+
+def plumb_expected(variant, get, heights):
+    """the density the JSON options name, built directly (documented meaning of each key)"""
+    from torchtree.evolution.bdsk import PiecewiseConstantBirthDeath
+    from torchtree.evolution.birth_death import BirthDeath
+
+    model, keys, opts = PLUMB_VARIANTS[variant]
+    if model == 'BirthDeathModel':
+        return BirthDeath(get('lambda'), get('mu'), get('psi'), get('rho'), get('origin'), survival=opts.get('survival', True),
+                          validate_args=False).log_prob(heights)
+    R, delta, s = get('R'), get('delta'), get('s')
+    if 'removal_probability' in keys:
+        r = get('removal_probability')
+        lam = R * delta
+        psi = s * delta / (1.0 + (r - 1.0) * s)
+        mu = delta - psi * r
+    else:
+        r = None
+        lam, mu, psi = R * delta, delta - s * delta, s * delta
+    kw = dict(survival=opts.get('survival', True), origin_is_root_edge=opts.get('origin_is_root_edge', False),
+              relative_times=opts.get('relative_times', False), removal_probability=r, validate_args=False)
+    kw['rho'] = get('rho') if 'rho' in keys else torch.zeros(1, dtype=lam.dtype)
+    if 'origin' in keys:
+        kw['origin'] = get('origin')
+    if 'times' in keys:
+        kw['times'] = get('times')
+    elif 'times' in opts:
+        kw['times'] = torch.tensor(opts['times'], dtype=lam.dtype)
+    return PiecewiseConstantBirthDeath(lam, mu, psi, **kw).log_prob(heights)
+
+
+ATTR_OF = {'lambda': 'lambda_'}
+
+
+def plumb_replay(variant, which):
+    """concrete run (plain tensors, no engine): (reproduced, detail)"""
+    js, keys = plumb_json(variant)
+    try:
+        model, dic = cm.build(js)
+    except Exception as e:
+        return True, f'from_json raised {type(e).__name__}: {e}'
+    _, _, opts = PLUMB_VARIANTS[variant]
+    if which.startswith('attr:'):
+        k = which[5:]
+        got = getattr(model, ATTR_OF.get(k, k), None)
+        if k in keys:
+            ok = got is dic.get('p_' + k, 'never built')
+        else:
+            ok = got == opts.get(k, got)
+        return (not ok), f'JSON key {k!r}: attribute {ATTR_OF.get(k, k)} is {got!r}'
+    try:
+        out = model()
+    except Exception as e:
+        return True, f'calling the model raised {type(e).__name__}: {e}'
+    exp = plumb_expected(variant, lambda k: dic['p_' + k].tensor if 'p_' + k in dic else torch.tensor(PARAM_VALUES[k]),
+                         model.tree_model.node_heights)
+    if not torch.allclose(out.reshape(-1).double(), exp.reshape(-1).double(), rtol=1e-5, atol=1e-5):
+        return True, f'model() = {out.tolist()} but the options name a density of {exp.tolist()}'
+    return False, f'model() = {out.tolist()} as named'
+
+
+def plumb_signature(variant, which, detail=''):
+    model, keys, opts = PLUMB_VARIANTS[variant]
+    if model == 'BirthDeathModel':
+        return SIG_BDM if which == 'call' else SIG_PLUMB + ':BirthDeathModel:' + which
+    if 'removal_probability' in keys or 'relative_times' in opts:
+        if which in ('call', 'attr:removal_probability'):
+            return SIG_RP
+    if isinstance(opts.get('times'), list) and which in ('call', 'attr:times'):
+        return SIG_TLIST
+    if 'origin' not in keys and which == 'call':
+        return SIG_NOORIGIN
+    return SIG_PLUMB + ':BDSKModel:' + which
+
+
+def run_plumbing_task(variant, tr):
+    from torchtree.evolution.bdsk import BDSKModel, epidemiology_to_birth_death
+    from torchtree.evolution.birth_death import BirthDeathModel
+
+    tr.fn(BDSKModel.from_json, BDSKModel._call, BirthDeathModel.from_json, BirthDeathModel._call, epidemiology_to_birth_death)
+    model_name, okeys, opts = PLUMB_VARIANTS[variant]
+    js, keys = plumb_json(variant)
+    label = f'plumbing [{variant}]'
+    with tracing() as t:
+        d = t.dag
+        model, dic = cm.build(js)
+        V = {}
+        sym = {}
+        goals = []
+        for k in keys:  # one distinct symbol per documented key
+            if 'p_' + k not in dic:  # from_json never looked at the key
+                sym[k] = new_vars(k, torch.tensor(PARAM_VALUES[k], dtype=torch.float64))
+            else:
+                sym[k] = cm.symbolize(dic['p_' + k], k, torch.tensor(PARAM_VALUES[k], dtype=torch.float64))
+            V[f'{k}[0]'] = int(sym[k]._ids[0])
+        for k in keys:
+            got = getattr(model, ATTR_OF.get(k, k), None)
+            ids = getattr(getattr(got, 'tensor', None), '_ids', None)
+            node = d.eq(int(ids.reshape(-1)[0]), V[f'{k}[0]']) if ids is not None and ids.numel() == 1 else d.FALSE
+            goals.append((f'attr:{k}', f'the symbol given under JSON key {k!r} is what attribute {ATTR_OF.get(k, k)!r} holds', node))
+        for k, v in opts.items():
+            if isinstance(v, bool):
+                goals.append((f'attr:{k}', f'option {k}={v} is stored', d.bconst(getattr(model, k, None) is v)))
+        try:
+            out = model()
+            exp = plumb_expected(variant, lambda k: sym[k], model.tree_model.node_heights)
+            if tuple(out.shape) != tuple(exp.shape) or not isinstance(out, SymTensor):
+                node = d.FALSE
+            else:
+                oi = out._ids.reshape(-1).tolist()
+                ei = exp._ids.reshape(-1).tolist() if isinstance(exp, SymTensor) else [d.const(float(x)) for x in exp.reshape(-1)]
+                node = d.and_(*[d.eq(a, b) for a, b in zip(oi, ei)])
+                used = set(d.variables([oi[0]]))
+                tr.sample({'case': label, 'symbols reaching the result': sorted(used)})
+            goals.append(('call', 'model() is the density named by the options (built directly from the same symbols)', node))
+        except Exception as e:
+            from symtorch.expr import EngineError
+
+            if isinstance(e, EngineError):
+                raise
+            goals.append(('call', f'model() evaluates (it raised {type(e).__name__}: {str(e)[:80]})', d.FALSE))
+        tr.witness_runs += 1
+        tr.regions += 1
+        tr.ops_checked += t.nchecked
+        hyps = list(t.pcs) + [d.lt(0, i) for i in V.values()]
+        for which, text, node in goals:
+            cm.discharge(tr, d, hyps + ground_axioms(d, [node]), [(f'{label}: {text}', node, [], plumb_signature(variant, which))], label,
+                         replay=lambda vals, w=which: plumb_replay(variant, w), timeout=5.0, varnodes=V, defined=False)
+
+
+# ===================================================================== tasks
+def density_cfg(**kw):
+    c = dict(cls='PCBD', m=1, n=2, survival=True, removal=False, origin='given', times='none', rho_shape='full')
+    c.update(kw)
+    return c
+
+
+CELLS_N2 = ['0<s0<=s1<c0<B', '0<s0<=s1<B=c0', '0<s0<=s1<B<c0', '0<s0<s1=B<c0', '0<s0<B<s1<c0', '0<B=s0<s1<c0', '0<B<s0<=s1<c0',
+            '0<s1<B<s0<c0', '0<s1<s0=B<c0', '0<s0=B=s1<c0']
+CELLS_N2_TIP0 = ['0=s0<s1<c0<B', '0=s0<s1<B<c0', '0=s0<B<s1<c0', '0=s0<s1=B<c0', '0=s1<B<s0<c0', '0=s1<s0<B<c0', '0=s0=s1<B<c0',
+                 '0=s0=s1<c0<B', '0=s0<s1<B=c0', '0=s0=s1<B=c0', '0=s1<s0=B<c0', '0=s1<s0<c0<B', '0=s1<s0<B=c0', '0<s1<s0<c0<B',
+                 '0<s1<s0<B=c0', '0<s1<=s0<B<c0', '0<B=s1<s0<c0', '0<B<s1<=s0<c0']
+CELLS_N3 = ['0<s0<=s1<c0<s2<c1<B', '0<s0<=s1<c0<s2<B<c1', '0<s0<=s1<c0<B<s2<c1', '0<s0<=s1<B<c0<s2<c1', '0<B<s0<=s1<c0<s2<c1',
+            '0<s2<s0<B<s1<c0<c1', '0=s0<s1<B<c0<s2<c1', '0<s0<=s1<c0<s2=B<c1', '0<s0<=s1<B=c0<s2<c1']
+
+
+def tasks_for(tier):
+    ts = [('plumb', v) for v in PLUMB_VARIANTS]
+    ts.append(('beast', None))
+    D = density_cfg
+    # ---- one epoch against the constant-rate oracle (Explorer enumerates tip-at-0 / rho = 0 / searchsorted regions)
+    for surv in (False, True):
+        for rem in (False, True):
+            ts.append(('density', D(survival=surv, removal=rem)))
+    ts.append(('density', D(removal=True, split={'corner': True})))
+    ts.append(('density', D(origin='root_edge')))
+    ts.append(('density', D(origin='none', removal=True)))
+    ts.append(('density', D(times='abs', survival=False)))
+    ts.append(('density', D(times='rel')))
+    ts.append(('density', D(rho_shape='short')))
+    for r0 in (False, True):
+        ts.append(('density', D(n=3, split={'rho0': r0})))
+    # ---- the constant-model class
+    ts.append(('density', D(cls='BD')))
+    ts.append(('density', D(cls='BD', survival=False)))
+    # ---- refinement: two epochs, identical rates, no sampling at the new boundary
+    for cell in CELLS_N2:
+        ts.append(('density', D(m=2, times='abs', cell=cell, split={'rho0': False})))
+    ts.append(('density', D(m=2, times='abs', cell='0<s0<=s1<B<c0', removal=True, split={'rho0': False})))
+    ts.append(('density', D(m=2, times='abs', rho_shape='short', survival=False, cell='0<s0<B<s1<c0', split={'rho0': False})))
+    ts.append(('cover', dict(n=2, cells=CELLS_N2, tips='positive', half=True)))
+    if tier != 'quick':
+        for surv in (False, True):
+            for rem in (False, True):
+                for org in ('given', 'root_edge', 'none'):
+                    for r0 in (False, True):
+                        ts.append(('density', D(n=3, survival=surv, removal=rem, origin=org, split={'rho0': r0})))
+                ts.append(('density', D(n=3, survival=surv, removal=rem, times='abs', rho_shape='short', split={'rho0': False})))
+        ts.append(('density', D(n=3, removal=True, split={'corner': True})))
+        ts.append(('density', D(cls='BD', n=3)))
+        for cell in CELLS_N2_TIP0:
+            for r0 in (False, True):
+                ts.append(('density', D(m=2, times='abs', cell=cell, split={'rho0': r0})))
+        for cell in CELLS_N2:
+            ts.append(('density', D(m=2, times='abs', cell=cell, split={'rho0': True})))
+            ts.append(('density', D(m=2, times='abs', cell=cell, origin='root_edge', survival=False, split={'rho0': False})))
+        ts.append(('cover', dict(n=2, cells=CELLS_N2 + CELLS_N2_TIP0, tips='any')))
+        for cell in CELLS_N3:
+            ts.append(('density', D(m=2, n=3, times='abs', cell=cell, split={'rho0': False})))
+    return ts
+
+
+def run_cover_task(spec, tr):
+    """the cells of the refinement tasks cover the stated domain (one solver query)"""
+    c = density_cfg(m=2, n=spec['n'], times='abs')
+    with tracing() as t:
+        d = t.dag
+        V = {nm: d.var(nm, v) for nm, v in initial_witness(c).items()}
+        dom = domain_for(c)(d, V)
+        if spec['tips'] == 'positive':
+            dom += [d.lt(0, V[f's{i}']) for i in range(spec['n'])] + [d.lt(0, V['rho'])]
+        if spec.get('half'):
+            dom.append(d.le(V['s0'], V['s1']))
+        cells = [d.and_(*cell_constraints(dict(c, cell=cell), d, V)) for cell in spec['cells']]
+        st, r, _ = prove(d, dom, d.or_(*cells), timeout=60.0, tr=tr, label='cells cover the domain', parallel=True)
+        if st == 'proved':
+            tr.closures += 1
+        else:
+            tr.inconc(f'refinement cells n={spec["n"]}: coverage of the domain by the cells not certified ({st})')
+
+
+def run_task(task, tr):
+    import os
+
+    t0 = time.time()
+    try:
+        return _run_task(task, tr)
+    finally:
+        if os.environ.get('VERIF_TIMING'):
+            print(f'TIMING {time.time() - t0:7.1f}s regions={tr.regions} {str(task)[:230]}', flush=True)
+
+
+def _run_task(task, tr):
+    kind, arg = task
+    tr.bounds['taxa'] = 'n = 2 (quick), n <= 3 (thorough); the density depends on the tree through node heights only'
+    tr.bounds['epochs'] = ('m = 1 against the constant-rate oracle; m = 2 with identical rates, rho = 0 at the new boundary and a '
+                           'symbolic boundary position, against the same oracle')
+    if kind == 'plumb':
+        return run_plumbing_task(arg, tr)
+    if kind == 'beast':
+        bad = oracle_reproduces_beast()
+        tr.witness_runs += len(BEAST_LITERALS)
+        for b in bad:
+            tr.inconc('the oracle does not reproduce a BEAST2 literal of test_bdsky.py: ' + b)
+        tr.sample({'oracle vs BEAST2 literals (test_bdsky.py, single-epoch cases)': [x[0] for x in BEAST_LITERALS], 'all reproduced': not bad})
+        return
+    if kind == 'cover':
+        return run_cover_task(arg, tr)
+    run_density_task(arg, tr)
+
+
+def body(chk):
+    chk.explanation = ('symbolic execution of the real birth-death(-skyline) log_prob on symbolic rates, sampling parameters, origin, '
+                       'epoch boundary and node heights; path regions enumerated with a coverage certificate; on each region '
+                       'impl == independently written Stadler-2010 density is decided by a chain of solver lemmas (exp/log/sqrt '
+                       'applications generalised to real variables, their laws instantiated only after the solver proved the '
+                       'premises); JSON plumbing decided on the expression DAG with one distinct symbol per documented key')
+    chk.total.assumptions |= {
+        'exp/log/sqrt are uninterpreted; only ground instances of their laws are used (congruence, exp(x+y)=exp(x)exp(y), exp(0)=1, '
+        'x>0 => exp(x)>1, log(xy)=log x+log y for x,y>0, log 1=0, sqrt(x)^2=x and sqrt(x)>=0 for x>=0), each instantiated only after '
+        'the solver proved its premises on the whole region',
+        'domain: lambda>0, mu>0, psi>=0 (psi>0 when some tip is psi-sampled), 0<=rho<=1, 0<=r<=1, not (psi=0 and lambda=mu) '
+        '[removable singularity of the closed form: the real code returns nan there], internal heights above their tips and at most '
+        'the origin, 0 < boundary < origin',
+        'a tip at height 0 is a rho-sample when rho>0 and a psi-sample when rho=0 (BEAST2 convention, reproduced by the literals of '
+        'test_bdsky.py); with a removal probability the density is that of the labelled tree (+(n-1) log 2, as BEAST2 bdsky)',
+        'origin omitted: the process starts at the root (limit of a zero-length root edge)',
+        'log 2 enters through its float64 value on both sides',
+        'agreement with numerical integration of the master equations and 4-8 epochs with distinct rates: not decidable with this '
+        'technique, not claimed',
+        'removal probability with r=0 and rho=1 is examined in a separate task (corner): the general tasks assume r>0 or rho<1',
+    }
+    chk.total.stubs |= {'exp', 'log', 'sqrt (uninterpreted, generalised to real variables inside every lemma)'}
+    pmap(run_task, tasks_for(chk.tier), chk.total)
+
+
+def replay_file(path):
+    r = json.load(open(path))['replay']
+    if 'cfg' in r:
+        ok, detail = replay(r['cfg'], r['values'])
+    else:
+        lab = r.get('label', '')
+        variant = lab[lab.index('[') + 1:lab.index(']')]
+        ok, detail = False, 'no failing goal'
+        for which in ['call'] + ['attr:' + k for k in ('removal_probability', 'times', 'origin', 'rho', 'relative_times', 'survival')]:
+            ok, detail = plumb_replay(variant, which)
+            if ok:
+                break
+    print(('REPRODUCED ' if ok else 'NOT REPRODUCED ') + detail)
+    return 1 if ok else 0
+
+
+if __name__ == '__main__':
+    if '--replay' in sys.argv:
+        sys.exit(replay_file(sys.argv[sys.argv.index('--replay') + 1]))
+    sys.exit(main_for(PID, body))
